@@ -426,6 +426,7 @@ type zzMod struct {
 	Retag    bool
 	RetagID  int16  // field whose header+payload are replaced by RetagBytes
 	RetagBytes []byte
+	SkipSet  map[int16]bool // fields left out (any subset)
 }
 
 // zzEncMod encodes the struct v with the perturbations of m.
@@ -442,6 +443,9 @@ func zzEncMod(t *zzType, v *zzVal, m zzMod) []byte {
 		}
 		n++
 		if m.Skip && f.ID == m.SkipID {
+			continue
+		}
+		if m.SkipSet[f.ID] {
 			continue
 		}
 		if m.Retag && f.ID == m.RetagID {
